@@ -124,6 +124,28 @@ def run(rep, work, rng, tier):
         lines += P(b'USED', 'P.set I 0 1 1', b'SUBJECTS') + P(b'NAMES', 'P.set S 1 1 1 %s' % hx(b'Anon'), b'SUBJECTS') + P(b'LONG_FRAMES', 'P.set I 0 1 %d' % nf, b'POINT' if rng.random() < 0.3 else b'TRIAL')
         cid = 'vv%d' % k
         cases.append((cid, lines + ['snap 0', 'save 0 %s.c3d' % cid, 'fsum %s.c3d' % cid, 'load 1 %s.c3d' % cid, 'snap 1'])); kinds['vendor-vocabulary'] = kinds.get('vendor-vocabulary', 0) + 1
+    # (4) one caller-side Parameter object given values of one type, then of another, then stored (the containers of the other types
+    #     are still there inside the object): what is saved is what the typed getter of the LAST accepted set returns
+    for k in range(8):
+        n1 = rng.choice([1, 3, 4]); n2 = rng.choice([1, 3, 4])
+        seq = rng.choice([('F', 'I'), ('I', 'F'), ('F', 'S'), ('S', 'I'), ('F', 'I', 'F'), ('I', 'F', 'I')])
+        lines = ['new 0', 'P.new %s x' % hx(b'RETYPED')]
+        for ty in seq:
+            nv = rng.choice([n1, n2])
+            vals = {'I': [str(rng.choice([7, -8, 9, 1000, 32767])) for _ in range(nv)], 'F': [harness.fhex(gen.rfloat(rng)) for _ in range(nv)], 'S': [hx(gen.rname(rng, 5, False)) for _ in range(nv)]}[ty]
+            lines.append('P.set %s 0 %d %s' % (ty, nv, ' '.join(vals)))
+        cid = 'rt%d' % k
+        lines += ['param 0 ' + hx(b'EXTRA'), 'snap 0', 'save 0 %s.c3d' % cid, 'fsum %s.c3d' % cid, 'load 1 %s.c3d' % cid, 'snap 1']
+        cases.append((cid, lines)); kinds['parameter-object-retyped-before-it-is-stored'] = kinds.get('parameter-object-retyped-before-it-is-stored', 0) + 1
+    # (5) a saved object reloaded, a LARGE parameter replaced by a small one (the parameter section shrinks by whole blocks), saved
+    #     again and reloaded: the second file is the image of the edited object, like the first was of the built one
+    for k in range(6):
+        nbig = rng.choice([400, 600, 1000]); d1 = rng.choice([100, 200])
+        lines = ['new 0', 'point 0 x61', 'P.new x52415445 x', 'P.set F 0 1 42c80000', 'param 0 x504f494e54', 'frame 0 - 1 x61 3dcccccd 40000000 40400000 3c23d70a 0',
+                 'P.new %s x' % hx(b'TABLE'), 'P.set F 2 %d %d %d %s' % (d1, nbig // d1, nbig, ' '.join(['3f800000'] * nbig)), 'param 0 ' + hx(b'CALIB'),
+                 'save 0 sh%d_a.c3d' % k, 'load 1 sh%d_a.c3d' % k, 'P.new %s x' % hx(b'TABLE'), 'P.set F 0 4 3f800000 40000000 40400000 40800000', 'param 1 ' + hx(b'CALIB'),
+                 'snap 1', 'save 1 sh%d_b.c3d' % k, 'fsum sh%d_b.c3d' % k, 'load 2 sh%d_b.c3d' % k, 'snap 2']
+        cases.append(('sh%d' % k, lines)); kinds['reloaded-object-whose-parameter-section-shrinks'] = kinds.get('reloaded-object-whose-parameter-section-shrinks', 0) + 1
     # (3) the largest parameter section the format can describe (254 / 255 blocks: the data start beyond block 255) WITH data after it
     for v in (254, 255):
         lines = ['new 0', 'point 0 x61', 'P.new x52415445 x', 'P.set F 0 1 42c80000', 'param 0 x504f494e54'] + ['frame 0 - 1 x61 3dcccccd 40000000 40400000 3c23d70a 0', 'frame 0 - 1 x61 3f8ccccd c0000000 40400000 00000000 0']
